@@ -91,6 +91,14 @@ const CYCLIC: &[&str] = &[
 	"local a = [b], b = [a, error 'e']; a[0][1]",
 	"{ a: $ }",
 	"local a = [a]; a",
+	// object-level assertions that fail, raise, or hit the frame limit
+	"local o = { assert self.a == 2 : 'bad a', a: 1, me: o }; o.a",
+	"{ assert false : 'top', a: { b: $ } }",
+	"{ a: { assert false : 'nested', b: 1 }, c: self.a.b }",
+	"{ assert error 'in condition', a: 1 }.a",
+	"{ assert false : error 'in message', a: 1 }.a",
+	"local f(x) = { assert f(x + 1).a == 1, a: 1 }; f(0).a",
+	"{ assert true, a: 1 } + { assert self.a == 2 : 'second layer', b: self }",
 	// cut off by the frame limit
 	"local f(x) = f(x + 1) + 1; f(0)",
 	"local o = { a: self.b, b: self.a }; o.a",
@@ -121,12 +129,50 @@ fn leak_case(code: &str) -> (String, i64) {
 	(tag, after as i64 - before as i64)
 }
 
-fn check_leak(rep: &mut Report, family: &str, code: &str, cost: u32) {
-	let (tag, mut left) = leak_case(code);
-	if left != 0 {
-		// thread-local singletons (empty object, cached std parts) are built on first use and stay: a leak repeats
+/// Evaluations run on a dedicated thread (the collector's object space is per thread). After a confirmed leak the
+/// thread is retired and a fresh one started: leaked objects would otherwise stay tracked there and slow every later
+/// collection down (and hide further leaks of the same size).
+pub struct LeakRunner {
+	tx: std::sync::mpsc::Sender<String>,
+	rx: std::sync::mpsc::Receiver<(String, i64, i64)>,
+}
+impl LeakRunner {
+	pub fn new() -> Self {
+		let (tx, crx) = std::sync::mpsc::channel::<String>();
+		let (ctx, rx) = std::sync::mpsc::channel::<(String, i64, i64)>();
+		std::thread::Builder::new()
+			.stack_size(64 << 20)
+			.spawn(move || {
+				// warm-up: thread-local caches of the evaluator/stdlib are built once
+				let _ = leak_case("std.length(std.objectFields({ a: 1 }))");
+				let _ = leak_case("error 'warm-up'");
+				let _ = leak_case("local f(x) = f(x + 1) + 1; f(0)");
+				while let Ok(code) = crx.recv() {
+					let (tag, first) = leak_case(&code);
+					// thread-local singletons (empty object, cached std parts) are built on first use and stay: a leak repeats
+					let second = if first == 0 { 0 } else { leak_case(&code).1 };
+					if ctx.send((tag, first, second)).is_err() {
+						break;
+					}
+				}
+			})
+			.expect("spawn leak runner");
+		Self { tx, rx }
+	}
+	pub fn run(&mut self, code: &str) -> (String, i64, i64) {
+		self.tx.send(code.to_owned()).expect("leak runner alive");
+		let r = self.rx.recv().expect("leak runner answers");
+		if r.2 != 0 {
+			*self = Self::new();
+		}
+		r
+	}
+}
+
+fn check_leak(runner: &mut LeakRunner, rep: &mut Report, family: &str, code: &str, cost: u32) {
+	let (tag, first, left) = runner.run(code);
+	if first != 0 {
 		rep.count("one-time thread-local allocations seen", 1);
-		left = leak_case(code).1;
 	}
 	rep.case(Some(fnv(code.as_bytes())), fnv(tag.as_bytes()));
 	if tag.starts_with("panic") {
@@ -144,16 +190,13 @@ fn check_leak(rep: &mut Report, family: &str, code: &str, cost: u32) {
 }
 
 fn part_collector(shard: &Shard, journal: &Journal, rep: &mut Report) {
-	// warm-up: thread-local caches of the evaluator/stdlib are built once
-	let _ = leak_case("std.length(std.objectFields({ a: 1 }))");
-	let _ = leak_case("error 'warm-up'");
-	let _ = leak_case("local f(x) = f(x + 1) + 1; f(0)");
+	let mut runner = LeakRunner::new();
 	let mut idx = 0u64;
 	for code in CYCLIC {
 		idx += 1;
 		if shard.mine(idx) {
 			journal.note(idx, "collector", code);
-			check_leak(rep, "cyclic structure", code, 0);
+			check_leak(&mut runner, rep, "cyclic structure", code, 0);
 		}
 	}
 	// inheritance chains
@@ -172,7 +215,7 @@ fn part_collector(shard: &Shard, journal: &Journal, rep: &mut Report) {
 		};
 		let code = format!("local o = {}; [std.objectFieldsAll(o), o]", print(&build(&chain)));
 		journal.note(idx, "collector", &code);
-		check_leak(rep, "inheritance chain", &code, 2);
+		check_leak(&mut runner, rep, "inheritance chain", &code, 2);
 	});
 	// generated programs
 	let cfg = GenCfg { syntax_only: false, objects: true };
@@ -184,13 +227,12 @@ fn part_collector(shard: &Shard, journal: &Journal, rep: &mut Report) {
 		}
 		let code = print(&e);
 		journal.note(base + i, "collector", &code);
-		check_leak(rep, "generated program", &code, c.used());
+		check_leak(&mut runner, rep, "generated program", &code, c.used());
 		if i % 50_021 == 0 {
-			rep.sample(|| json!({"program": code, "tracked_left": leak_case(&code).1}));
+			rep.sample(|| json!({"program": code}));
 		}
 	});
 	rep.count("generated_programs", total / shard.n);
-	rep.count("tracked objects on the worker thread at the end", tracked() as u64);
 }
 
 // ---------------------------------------------------------------------------------------------
